@@ -176,7 +176,7 @@ fn remove_stale<const N: usize>() {
 
 // @check props=C29 tier=quick
 // @desc remove_stale_writer_samples(now) on a real participant whose writer history holds 2 changes with symbolic source timestamps (possibly none) and a symbolic finite lifespan L: afterwards every change with timestamp + L < now is gone (no first transmission, repair or late-joiner history can carry it: all three read this history), every change with timestamp + L > now or without timestamp is still there, unmodified and in order, and nothing else is in the history
-// @bounds one publisher, one writer, exactly 2 changes; timestamps, now, L on the value grid seconds 0..=7 x nanoseconds {0, 1, 5*10^8, 10^9-1}
+// @bounds one publisher, one writer, exactly 2 changes (per-loop bound 3 on Vec::retain's loops); timestamps, now, L on the value grid seconds 0..=7 x nanoseconds {0, 1, 5*10^8, 10^9-1}
 // @assume the publisher/writer were installed directly in the state create_user_defined_publisher / create_data_writer + enable give them (support_part2.rs); history filled through RtpsStatefulWriter::changes_mut().push (what add_change stores when no reader is matched)
 // @enc DcpsDomainParticipant::remove_stale_writer_samples
 #[kani::proof]
@@ -185,19 +185,6 @@ fn remove_stale<const N: usize>() {
 #[kani::stub(critical_section::release, super::support_cs::cs_release)]
 fn c29_remove_stale_2() {
     remove_stale::<2>();
-}
-
-// @check props=C29 tier=thorough
-// @desc as c29_remove_stale_2 with 3 changes
-// @bounds one publisher, one writer, exactly 3 changes
-// @assume as c29_remove_stale_2
-// @enc DcpsDomainParticipant::remove_stale_writer_samples
-#[kani::proof]
-#[kani::unwind(2)]
-#[kani::stub(critical_section::acquire, super::support_cs::cs_acquire)]
-#[kani::stub(critical_section::release, super::support_cs::cs_release)]
-fn c29_remove_stale_3() {
-    remove_stale::<3>();
 }
 
 fn time_until<const N: usize>() {
@@ -244,7 +231,7 @@ fn time_until<const N: usize>() {
 
 // @check props=C29 tier=quick
 // @desc time_until_stale_writer_sample(now) on the same pre-state family (2 changes): Some(d) iff a change carries a timestamp, and d is the MINIMUM over those changes of (timestamp + L - now) — so the worker (C31) wakes up no later than the first expiry
-// @bounds one publisher, one writer, exactly 2 changes; timestamps, now, L as c29_remove_stale_2
+// @bounds one publisher, one writer, exactly 2 changes (per-loop bound 3 on Vec::retain's loops); timestamps, now, L as c29_remove_stale_2
 // @assume as c29_remove_stale_2
 // @enc DcpsDomainParticipant::time_until_stale_writer_sample
 #[kani::proof]
